@@ -48,17 +48,27 @@ package filters
 //@ ensures floatZero: @bflt && feq(pl_flt(b), i2f(0)) ==> result1 != nil
 //@ ensures otherDivisor: !@bint && !@bflt ==> result1 != nil && result0 == nil
 
+// ceil and floor return an int when the result fits one, else the integral float itself
+// (converting it would wrap around)
+//@ define fitsint(f Flt) Bool = (flt(i2f(-9223372036854775808), f) || feq(f, i2f(-9223372036854775808))) && flt(f, 9223372036854775808.0)
+//@ func filters.wholeNumber
+//@ props C17 C03 C04 C01
+//@ panics nothing
+//@ assigns nothing
+//@ ensures fits: fitsint(f) ==> result == box(f2i(f), int)
+//@ ensures beyond: !fitsint(f) ==> result == box(f, float64)
+
 //@ func filter "ceil"
 //@ props C17 C03 C04 C01
 //@ panics nothing
 //@ assigns nothing
-//@ ensures def: result == f2i(math.Ceil(a))
+//@ ensures def: result == ite(fitsint(math.Ceil(a)), box(f2i(math.Ceil(a)), int), box(math.Ceil(a), float64))
 
 //@ func filter "floor"
 //@ props C17 C03 C04 C01
 //@ panics nothing
 //@ assigns nothing
-//@ ensures def: result == f2i(math.Floor(a))
+//@ ensures def: result == ite(fitsint(math.Floor(a)), box(f2i(math.Floor(a)), int), box(math.Floor(a), float64))
 
 // ---- string filters (C16) --------------------------------------------------------
 // Optional filter parameters arrive as functions (values.Call builds them): calling one
